@@ -18,6 +18,7 @@
 EXTENDS Lexer, Rng, TLC
 
 STACK_LIMIT == 32
+MAX_NEST == 64                  \* nesting cap of expressions and of statements (IF ... THEN IF ...)
 MAX_CELLS == 10000
 DEFAULT_MAX_INDEX == 10
 
@@ -77,6 +78,7 @@ Fresh == [ mode |-> "idle",
            input |-> NoInput,        \* pending INPUT reply
            seed |-> <<>>,            \* generator state (BigNat)
            trace |-> FALSE, warn |-> FALSE,
+           nest |-> 0, snest |-> 0,  \* current nesting depth of the expression / statement being evaluated
            out |-> <<>> ]            \* outputs of the call in progress
 
 Put(f, k, v) == (k :> v) @@ f
@@ -294,7 +296,11 @@ BinaryOp(op, a, b) ==
       [] op = "caret" -> Power(a, b)
       [] OTHER -> Arith(op, a, b)
 
-EvalExpr(I) == EvalTier(I, 1)
+\* Nesting (parentheses, arguments, subscripts, function bodies) deeper than MAX_NEST is an
+\* OUT OF MEMORY error, not a crash.
+EvalExpr(I) ==
+    IF I.nest = MAX_NEST THEN RErr(I, "out_of_memory_stack_overflow")
+    ELSE LET r == EvalTier([I EXCEPT !.nest = @ + 1], 1) IN [r EXCEPT !.I.nest = I.nest]
 
 \* one recursive-descent level: a left-folding loop over the tier's operators
 EvalTier(I, n) ==
@@ -634,8 +640,10 @@ ExecGosub(I) ==
 
 \* evaluate_statement: optional trace record, then dispatch on the first token
 ExecStatement(I) ==
-    LET I0 == IF I.trace /\ I.loc.line # IMM THEN Emit(I, OutTrace(I.loc.line)) ELSE I
-    IN  IF ~HasTok(I0) THEN ROk(I0, VNum(NZero)) ELSE ExecBody(Adv(I0), Peek(I0))
+    IF I.snest = MAX_NEST THEN RErr(I, "out_of_memory_stack_overflow")
+    ELSE LET I0 == IF I.trace /\ I.loc.line # IMM THEN Emit([I EXCEPT !.snest = @ + 1], OutTrace(I.loc.line)) ELSE [I EXCEPT !.snest = @ + 1]
+             r == IF ~HasTok(I0) THEN ROk(I0, VNum(NZero)) ELSE ExecBody(Adv(I0), Peek(I0))
+         IN  [r EXCEPT !.I.snest = I.snest]
 
 ExecBody(I, t) == \* I: the state after the first token t was consumed
     CASE t.k = "stop" -> ROk(BreakHere(I), VNum(NZero))
